@@ -1,21 +1,19 @@
 import LettreVerif.Model.Mime
 import LettreVerif.Spec.MimeParse
+import LettreVerif.Proofs.Mime
 /-!
 # C11 — MIME trees format to a structure an independent parser reads back identically
 
-Proved here: the structural facts about formatting (purity and compositionality, delimiter
-and closing-delimiter lines use exactly the boundary, also for an empty multipart).  The full
-statement
-
-    theorem parse_format (t : Tree) (h : BoundaryFree t) (hw : WFHeaders t) :
-        MimeParse.parseEntity (depth t + 1) (format t) = some (skeleton t)
-
-is not proved yet: the RFC 2046 reader of `Spec/MimeParse.lean` is applied to the real octets
-of every generated tree by the correspondence check (with `BoundaryFree` checked on every
-case), and compared with the tree that was asked for.
+Proved here: `parse_format` — the RFC 2046 reader of `Spec/MimeParse.lean` applied to the octets of any
+well-formed tree gives back the tree (nesting, part order, each entity's fields, each leaf's content), with no bound
+on depth, fan-out or sizes — and the layout facts (purity and compositionality, delimiter and closing-delimiter
+lines use exactly the boundary, also for an empty multipart).  The correspondence check ties the formatter model to
+`SinglePart::formatted` / `MultiPart::formatted` / `Message::formatted`, evaluates the hypotheses of `parse_format`
+(`wfB`, proved sound below) on the real header blocks and boundaries of every generated tree, and runs the same
+reader on the real octets.
 -/
 namespace LV.C11
-open LV LV.Mime
+open LV LV.Mime LV.MimeParse LV.MimeProof LV.HeaderReader
 
 /-- Formatting is a function of the tree (its header blocks, bodies and boundaries): the same
     tree gives the same octets, alone or inside a parent — a child's octets appear verbatim,
@@ -49,6 +47,77 @@ theorem single_part_layout (h b : Bytes) : format (.leaf h b) = h ++ CRLF ++ b +
 
 /-- A message is its header block followed directly by the part. -/
 theorem message_layout (mh : Bytes) (t : Tree) : formatMessage mh t = mh ++ format t := rfl
+
+/-- **parse ∘ format = id**, for every tree: an RFC 2046 reader applied to the octets of an entity recovers the
+    tree — same nesting and part order, each entity's own header fields, each leaf's content octet for octet.
+    `WF`: header fields are well formed (C02 proves that of every field lettre writes), a multipart's
+    Content-Type announces its boundary, the boundary has no CR and does not end in white space, and no line of a
+    part reads as a delimiter of the multipart that contains it (true of a generated 40-character boundary unless
+    the content contains it; a caller-supplied boundary that occurs in the content makes the tree ambiguous for
+    every reader). No bound on depth, fan-out or sizes. -/
+theorem parse_format (a : ATree) (hw : WF a) (fuel : Nat) (hd : depth a < fuel) :
+    parseEntity fuel (core (erase a)) = some (skel a) :=
+  (parse_core fuel a hd hw).1
+
+/-- a formatted multipart — with the CRLF that ends its closing delimiter line — reads back as the same tree -/
+theorem parse_format_multipart (fs : List (Bytes × Bytes)) (bd : Bytes) (ps : List ATree)
+    (hw : WF (.multi fs bd ps)) (fuel : Nat) (hd : depth (.multi fs bd ps) < fuel) :
+    parseEntity fuel (format (erase (.multi fs bd ps))) = some (skel (.multi fs bd ps)) :=
+  (parse_core fuel _ hd hw).2 fs bd ps rfl
+
+theorem formatFields_append (a b : List (Bytes × Bytes)) : formatFields (a ++ b) = formatFields a ++ formatFields b := by
+  simp [formatFields]
+
+/-- a whole message whose body is a multipart: the message's own fields followed by the multipart's, then the same
+    tree (`Message::formatted`: the part's header fields continue the message's header section) -/
+theorem parse_message (mfs fs : List (Bytes × Bytes)) (bd : Bytes) (ps : List ATree)
+    (hm : FieldsOk mfs) (hnc : ∀ f ∈ mfs, (f.1.map lowerB == str "content-type") = false)
+    (hw : WF (.multi fs bd ps)) (fuel : Nat) (hd : depth (.multi fs bd ps) < fuel) :
+    parseEntity fuel (formatMessage (formatFields mfs) (erase (.multi fs bd ps))) =
+      some (.multi (mfs ++ fs) (skelL ps)) := by
+  have hw' : WF (.multi (mfs ++ fs) bd ps) := by
+    simp only [WF] at hw ⊢
+    refine ⟨?_, ?_, hw.2.2.1, hw.2.2.2⟩
+    · intro f hf
+      rcases List.mem_append.mp hf with h | h
+      · exact hm f h
+      · exact hw.1 f h
+    · have : contentTypeOf (mfs ++ fs) = contentTypeOf fs := by
+        simp only [contentTypeOf, List.find?_append]
+        have : mfs.find? (fun f => f.1.map lowerB == str "content-type") = none := by
+          rw [List.find?_eq_none]; intro f hf; simp [hnc f hf]
+        rw [this]; simp
+      rw [this]; exact hw.2.1
+  have hd' : depth (.multi (mfs ++ fs) bd ps) < fuel := by simpa [depth] using hd
+  have := parse_format_multipart (mfs ++ fs) bd ps hw' fuel hd'
+  simpa [formatMessage, erase, format, formatFields_append, skel, List.append_assoc] using this
+
+/-- What the driver evaluates on every generated tree: if the model tree `t` (whose octets are compared with the real
+    ones) has header blocks that are fields written one per line (`annot`) and passes the boolean check `wfB`, the
+    reader recovers it from `t`'s octets. -/
+theorem checked_tree_reads_back (t : Tree) (a : ATree) (ha : annot t = some a) (hw : wfB a = true)
+    (fuel : Nat) (hd : depth a < fuel) : parseEntity fuel (core t) = some (skel a) := by
+  have := parse_format a (wfB_sound a hw) fuel hd
+  rwa [annot_erase t a ha] at this
+
+/-- non-vacuity: a two-level tree with a quoted boundary containing a space, a folded Content-Type, and a leaf whose
+    content has `--` lines satisfies `WF` -/
+example :
+    let leaf1 := ATree.leaf [(str "A", str "b")] (str "h\r\n--x\r\n-- ")
+    let inner := ATree.multi [(str "Content-Type", str "multipart/a; boundary=\"a b\"")] (str "a b")
+      [ATree.leaf [(str "C", str "d")] (str "hi")]
+    WF (ATree.multi [(str "Content-Type", str "multipart/m;\r\n boundary=Q")] (str "Q") [leaf1, inner]) := by
+  have fn : ∀ n : Bytes, (n ≠ [] ∧ ∀ b ∈ n, 33 ≤ b.toNat ∧ b.toNat ≤ 126 ∧ b.toNat ≠ 58) → FName n := fun _ h => h
+  simp only [WF, WFL, FieldsOk, BdOk, NoCR, BoundaryFree, List.mem_cons, List.not_mem_nil, or_false,
+    forall_eq, and_true]
+  refine ⟨⟨fn _ (by decide), by decide⟩, by decide, ⟨by decide, ?_⟩, ⟨⟨⟨fn _ (by decide), by decide⟩, by decide⟩, by decide⟩,
+    ⟨⟨⟨fn _ (by decide), by decide⟩, by decide, ⟨by decide, ?_⟩, ⟨⟨⟨fn _ (by decide), by decide⟩, by decide⟩, by decide⟩⟩, by decide⟩⟩
+  · intro x h
+    have e : (str "Q").getLast? = some 81 := by decide
+    rw [e] at h; cases h; decide
+  · intro x h
+    have e : (str "a b").getLast? = some 98 := by decide
+    rw [e] at h; cases h; decide
 
 /-- non-vacuity: the reader of Spec/MimeParse.lean recovers a two-level tree, including a leaf
     whose content has `--` lines, from the model's output. -/
